@@ -564,3 +564,67 @@ Proof.
     match goal with |- context [taint ?g ?c ?a] => destruct (same_taint g c a) as (A1 & B1 & C1) end.
     apply np_same; st_simpl; [rewrite A1 | rewrite B1 | rewrite C1]; reflexivity.
 Qed.
+
+Definition pushing (o : op) : bool :=
+  match o with TrySend _ | Send _ | Poll _ _ | Clone _ _ => true | _ => false end.
+
+Lemma np_step s o : pushing o = false -> np s (fst (step s o)).
+Proof.
+  intros Hp. unfold step. set (s1 := with_bad false (with_dk [] (with_wk [] s))).
+  assert (C1 : np s s1) by (apply np_same; reflexivity).
+  assert (E1 : sc s1 <= sc s /\ q s1 = q s /\ recvd s1 = recvd s) by (repeat split; try reflexivity; cbn; lia).
+  destruct E1 as (Ea & Eb & Ec). clearbody s1.
+  destruct o; try discriminate Hp.
+  - (* TryRecv *)
+    destruct (getH h s1) as [x|]; [|exact C1]. destruct (h_live x); cbn [negb]; [|exact C1].
+    destruct (h_tx x); [exact C1|]. destruct (h_closed x); [exact C1|].
+    pose proof (np_try_recv_core s1) as C.
+    destruct (try_recv_core s1) as [s2 [v| |]]; cbn [fst ret] in *; eapply np_trans_l; eauto.
+  - (* Recv *)
+    destruct (getH h s1) as [x|]; [|exact C1]. destruct (h_live x); cbn [negb]; [|exact C1].
+    destruct (h_tx x || h_async x); [exact C1|].
+    match goal with |- context [if ?c then ret s1 RWouldBlock else _] => destruct c end; [exact C1|].
+    destruct (h_closed x); [exact C1|].
+    pose proof (np_try_recv_core s1) as C.
+    destruct (try_recv_core s1) as [s2 [v| |]]; cbn [fst ret] in *; eapply np_trans_l; eauto.
+  - (* RecvTimeout *)
+    destruct (getH h s1) as [x|]; [|exact C1]. destruct (h_live x); cbn [negb]; [|exact C1].
+    destruct (h_tx x || h_async x); [exact C1|].
+    destruct (h_closed x && fx03 (fx s1)); [exact C1|].
+    destruct (same_taint set_t03 (h_closed x) s1) as (A1 & B1 & D1).
+    pose proof (np_try_recv_core (taint set_t03 (h_closed x) s1)) as C.
+    destruct (try_recv_core (taint set_t03 (h_closed x) s1)) as [s2 [v| |]]; cbn [fst ret] in *;
+      (eapply np_trans_l; [| | |exact C]; [rewrite A1; exact Ea | rewrite B1; exact Eb | rewrite D1; exact Ec]).
+  - (* Close *)
+    destruct (getH h s1) as [x|]; [|exact C1]. destruct (h_live x); cbn [negb]; [|exact C1].
+    pose proof (np_do_close h x s1) as C. destruct (do_close h x s1) as [s2 r]. cbn [fst ret] in *.
+    eapply np_trans_l; eauto.
+  - (* DropH *)
+    destruct (getH h s1) as [x|]; [|exact C1]. destruct (h_live x); cbn [negb]; [|exact C1].
+    destruct (borrowed h s1); [exact C1|].
+    pose proof (np_do_close h x s1) as C. destruct (do_close h x s1) as [s2 r]. cbn [fst ret] in *.
+    eapply np_trans_l; [exact Ea | exact Eb | exact Ec |].
+    eapply np_trans_r; [exact C|..]; unfold maybe_free;
+      match goal with |- context [any_live ?a] => destruct (any_live a) end; st_simpl; try reflexivity; lia.
+  - (* Convert *)
+    destruct (getH h s1) as [x|]; [|exact C1]. destruct (h_live x); cbn [negb]; [|exact C1].
+    destruct (getH h2 s1); [exact C1|]. destruct (borrowed h s1); [exact C1|]. cbn [ret fst].
+    destruct (same_taint set_t07 (h_closed x && negb (fx07 (fx s1))) s1) as (A1 & B1 & D1).
+    eapply np_trans_l; [exact Ea | exact Eb | exact Ec |].
+    apply np_same; st_simpl; [exact A1 | exact B1 | exact D1].
+  - (* Observe *)
+    destruct (getH h s1) as [x|]; [|exact C1]. destruct (h_live x); exact C1.
+  - (* MkSend *)
+    destruct (getH h s1) as [x|]; [|exact C1]. destruct (h_live x); cbn [negb]; [|exact C1].
+    destruct (negb (h_tx x && h_async x)); [exact C1|]. destruct (getF f s1); [exact C1|].
+    cbn [ret fst fresh snd]. eapply np_trans_l; [exact Ea | exact Eb | exact Ec |]. apply np_same; reflexivity.
+  - (* MkRecv *)
+    destruct (getH h s1) as [x|]; [|exact C1]. destruct (h_live x); cbn [negb]; [|exact C1].
+    destruct (negb (negb (h_tx x) && h_async x)); [exact C1|]. destruct (getF f s1); [exact C1|].
+    cbn [ret fst]. eapply np_trans_l; [exact Ea | exact Eb | exact Ec |]. apply np_same; reflexivity.
+  - (* DropF *)
+    destruct (getF f s1) as [x|]; [|exact C1]. destruct (f_live x); cbn [negb]; [|exact C1].
+    cbn [ret fst]. destruct (same_cancel_reg f x s1) as (A1 & B1 & D1).
+    eapply np_trans_l; [exact Ea | exact Eb | exact Ec |].
+    destruct (f_item x); apply np_same; st_simpl; unfold destroy; st_simpl; assumption.
+Qed.
